@@ -1677,3 +1677,82 @@ pub fn gen_c01(rng: &mut Rng, d: &mut Dist, _idx: u64) -> Vec<String> {
     }
     out
 }
+
+/// C08: histories over {poll, mark message consumed (any delivered offset, also lower ones), commit, commit failing with an
+/// error code or a lost connection}, a crash (drop and re-create the consumer) at random points, both offset storages.
+pub fn gen_c08(rng: &mut Rng, d: &mut Dist, _idx: u64) -> Vec<String> {
+    let cl = Cluster::random(rng, 3, false);
+    let mut out = cl.setup_lines();
+    let mut ends: Vec<(String, usize, i64)> = Vec::new();
+    for t in &cl.topics {
+        for p in 0..t.leaders.len() {
+            let mut toks = String::new();
+            let n = 3 + rng.below(8) as i64;
+            for o in 0..n {
+                toks.push_str(&format!(" {} ~ {:02x}", o, o));
+            }
+            out.push(format!("APPEND {} {} plain{}", h(&t.name), p, toks));
+            ends.push((t.name.clone(), p, n));
+        }
+    }
+    let storage = *rng.pick(&["zk", "kafka"]);
+    bump(d, &format!("storage-{}", storage));
+    let topics: Vec<String> = cl.topics.iter().map(|t| format!("topic={}", h(&t.name))).collect();
+    let create = format!(
+        "OP consumer_create hosts={} group={} storage={} fallback={} {}",
+        cl.bootstrap(),
+        h("grp"),
+        storage,
+        rng.pick(&["earliest", "latest"]),
+        topics.join(" ")
+    );
+    out.push(create.clone());
+    out.push("OP k set retry_backoff_ms 0".into());
+    out.push("OP k set retry_max 2".into());
+    let nops = 4 + rng.below(16);
+    for _ in 0..nops {
+        match rng.below(12) {
+            0 | 1 | 2 => {
+                bump(d, "poll");
+                out.push("OP poll".into());
+            }
+            3 | 4 | 5 | 6 => {
+                bump(d, "mark");
+                let (t, p, n) = rng.pick(&ends[..]).clone();
+                out.push(format!("OP consume {} {} {}", h(&t), p, rng.below(n as u64)));
+                if rng.chance(1, 3) {
+                    out.push(format!("OP last_consumed {} {}", h(&t), p));
+                }
+            }
+            7 | 8 => {
+                bump(d, "commit-ok");
+                out.push("OP commit".into());
+            }
+            9 => {
+                bump(d, "commit-error-code");
+                out.push(format!("SCRIPT 8 {}", rng.pick(&[29i64, 12, 14, 16, 7])));
+                out.push("OP commit".into());
+                out.push("SCRIPT 8".into());
+            }
+            10 => {
+                bump(d, "commit-lost-connection");
+                out.push(format!("H {} 0", rng.pick(&["fail_send", "fail_recv"])));
+                out.push("OP commit".into());
+                out.push("H clear_faults".into());
+            }
+            _ => {
+                bump(d, "crash-and-restart");
+                out.push("OP consumer_drop".into());
+                out.push(create.clone());
+                out.push("OP k set retry_backoff_ms 0".into());
+                out.push("OP k set retry_max 2".into());
+                out.push("OP poll".into());
+            }
+        }
+    }
+    // a final restart: must resume at what the coordinator stored
+    out.push("OP consumer_drop".into());
+    out.push(create);
+    out.push("OP poll".into());
+    out
+}
